@@ -195,8 +195,8 @@ def run(ctx):
             continue
         cs = [e for e in fx.effects if e.kind == "CALL" and e.key == SWEEP]
         if cs:
-            arm = [v for a, v in fx.guards_before(cs[0]) if a == T("variantof", mrep)]
-            ck.ob("C05-R3", ANM, "c:no-repeat-sweep-only-when-a-Disabled/Special-mapping-fires", arm in (["Disabled"], ["Special"]), detail=str(arm))
+            poss = kt.variant_set(fx.guards_before(cs[0]), mrep, ("Normal", "Disabled", "Special"))
+            ck.ob("C05-R3", ANM, "c:no-repeat-sweep-only-when-a-Disabled/Special-mapping-fires", "Normal" not in poss and bool(poss), detail=str(sorted(poss)))
     # (b) context: release_action_mappings only for key-producing presses
     callers = [c for c in ctx.callers_of(RAM) if "::tests::" not in c]
     ck.ob("C05-R3", RAM, "b:called-only-from-add_new_mapping-and-newly_press", sorted(callers) == sorted([ANM, NP]), detail=str(callers))
